@@ -220,8 +220,9 @@ pub fn scale_module(rng: &mut Rng, variant: u64) -> (String, Vec<AInst>) {
             // pointer / variable storage-class pairs at module scope and inside a block
             let scs = d.enum_values(K::StorageClass);
             let n = scs.len();
-            let a = scs[rng.below(n)].1;
-            let b = if rng.chance(1, 2) { a } else { scs[rng.below(n)].1 };
+            // half of the time one of the classes front ends actually use (Function first among them)
+            let a = if rng.chance(1, 2) { *rng.pick(&[7u32, 7, 6, 4, 1, 2, 12, 0]) } else { scs[rng.below(n)].1 };
+            let b = if rng.chance(2, 3) { a } else { scs[rng.below(n)].1 };
             let t = fresh();
             v.push(AInst::named("TypeInt", None, Some(t), vec![lit(32), lit(0)]));
             let p = fresh();
